@@ -67,7 +67,7 @@ def int_strategy(t: str):
     return st.one_of(*parts)
 
 
-_TEXT_SPECIAL = ["", "\x00", "a", "\U0001F600", "é", "￿", "a\x00b", " ", "\U0010ffff",
+_TEXT_SPECIAL = ["\ufeffbom first", "\ufeff", "mid\ufeffdle", "", "\x00", "a", "\U0001F600", "é", "￿", "a\x00b", " ", "\U0010ffff",
                  # texts that read like JSON literals / numbers (they are map keys and string values like any other)
                  "true", "false", "null", "NaN", "Infinity", "-Infinity", "0", "1", "-1", "True", "None"]
 
